@@ -662,4 +662,169 @@ Proof.
     + auto.
 Qed.
 
+
+(** ** the simulation *)
+Notation asys := (sys (fstate * Z) op out).
+
+Inductive tsim (sv : srv) (t : nat) (res : list nat) : rth -> tstate op out -> Prop :=
+| ts_idle : res = [] -> tsim sv t res TIdle Idle
+| ts_start : forall inv o, res = [] -> op_ok now o -> tsim sv t res (TStart inv o) (Invoked inv o)
+| ts_run0 : forall inv o p, op_ok now o -> tshape sv t o p None res ->
+    tsim sv t res (TRun inv o p) (Invoked inv o)
+| ts_run1 : forall inv o p r id, op_ok now o -> tshape sv t o p (Some r) res ->
+    tsim sv t res (TRun inv o p) (Took id inv o r).
+
+Lemma tsim_frame : forall sv sv' t res a b, frame t sv sv' -> tsim sv t res a b -> tsim sv' t res a b.
+Proof.
+  intros sv sv' t res a b Hf H. destruct H.
+  - apply ts_idle; assumption.
+  - apply ts_start; assumption.
+  - apply ts_run0; [assumption|]. eapply tshape_frame; eauto.
+  - apply ts_run1; [assumption|]. eapply tshape_frame; eauto.
+Qed.
+
+Record zinv (z : rsys) (y : asys) (rs : nat -> list nat) : Prop := {
+  zi_clock : z_clock z = clock y;
+  zi_done : z_done z = done y;
+  zi_time : snd (shared y) = now;
+  zi_ginv : ginv (fst (shared y)) (z_srv z) (z_nxt z);
+  zi_thr : forall t, tsim (z_srv z) t (rs t) (z_thr z t) (threads y t);
+  zi_res : forall t n, In n (rs t) -> n < z_nxt z /\ ~ In n (fused (fst (shared y)));
+  zi_nodup : forall t, NoDup (rs t);
+  zi_disj : forall t t' n, t <> t' -> In n (rs t) -> In n (rs t') -> False
+}.
+
+Definition zsim (z : rsys) (y : asys) : Prop := exists rs, zinv z y rs.
+
+Lemma zsim_init : zsim z_init (sys_init (finit, now)).
+Proof.
+  exists (fun _ => []). constructor; cbn; auto.
+  - constructor; cbn; [constructor|apply finv_init|intros n []].
+  - intros t. apply ts_idle. reflexivity.
+  - intros t n [].
+  - intros t. constructor.
+Qed.
+
+Definition label_ok (l : rlabel) : Prop :=
+  match l with LInv _ o => op_ok now o | _ => True end.
+
+Lemma shared_eta : forall (y : asys), snd (shared y) = now -> shared y = (fst (shared y), now).
+Proof. intros y H. rewrite <- H. destruct (shared y); reflexivity. Qed.
+
+Lemma zsim_step : forall z y l z', zsim z y -> label_ok l -> zstep rk_prog now clk z l = Some z' ->
+  exists e y', xstep accF y e y' /\ zsim z' y'.
+Proof.
+  intros z y l z' [rs Hz] Hl Hs. pose proof Hz as [Hck Hdn Htm Hg Hth Hrs Hnd Hdj].
+  destruct l as [t o|t|t|t].
+  - (* invocation *)
+    cbn [zstep] in Hs. pose proof (Hth t) as Ht. destruct (z_thr z t) eqn:Et; try discriminate.
+    injection Hs as <-. inversion Ht as [Hr Hy| | |]; subst.
+    exists (XE (EInv t o)). eexists. split; [apply x_base; apply s_inv; symmetry; eassumption|].
+    exists rs. constructor; cbn [z_clock z_done z_srv z_nxt z_thr clock done shared threads]; auto.
+    + intros u. unfold zupd, upd. destruct (Nat.eqb_spec u t) as [->|Hne]; [|apply Hth].
+      rewrite Hck. apply ts_start; [exact Hr|exact Hl].
+  - (* the method body starts *)
+    cbn [zstep] in Hs. pose proof (Hth t) as Ht. destruct (z_thr z t) as [|inv o|] eqn:Et; try discriminate.
+    injection Hs as <-. inversion Ht as [|? ? Hr Hok Hy| |]; subst.
+    destruct (begin_shape (z_srv z) t o Hok) as [[r [Hp [Hw Hf]]]|Hsh].
+    + (* no command at all: it takes effect here *)
+      exists (XE (EAtom t r)). eexists. split.
+      * apply x_base. eapply s_atom; [symmetry; eassumption|].
+        rewrite (shared_eta y Htm). apply acc_read; [exact Hw|apply Hf].
+      * exists rs. constructor; cbn [z_clock z_done z_srv z_nxt z_thr clock done shared threads fst snd]; auto.
+        intros u. unfold zupd, upd. destruct (Nat.eqb_spec u t) as [->|Hne]; [|apply Hth].
+        rewrite Hp, Hr. apply ts_run1; [exact Hok|apply sh_done].
+    + exists XTau, (tick y). split; [apply x_tau|].
+      exists rs. constructor; cbn [tick z_clock z_done z_srv z_nxt z_thr clock done shared threads]; auto.
+      intros u. unfold zupd. destruct (Nat.eqb_spec u t) as [->|Hne]; [|apply Hth].
+      rewrite <- H0. rewrite Hr. apply ts_run0; assumption.
+  - (* a NewID / a server command *)
+    rewrite zstep_LStep in Hs. pose proof (Hth t) as Ht. destruct (z_thr z t) as [| |inv o p] eqn:Et; try discriminate.
+    destruct (pstep t (z_srv z) (z_nxt z) p) as [[[sv' nx'] p']|] eqn:Ep; [|discriminate]. injection Hs as <-.
+    assert (Hfr : forall u, u <> t -> tsim sv' u (rs u) (z_thr z u) (threads y u)).
+    { intros u Hne. eapply tsim_frame; [|apply Hth]. eapply pstep_frame; eauto. }
+    assert (Hstep : forall st, op_ok now o -> tshape (z_srv z) t o p st (rs t) ->
+              exists A' st' res', step_ok (fst (shared y)) (z_srv z) (z_nxt z) t o st (rs t) sv' nx' p' A' st' res').
+    { intros st Hok Hsh. eapply local_step; eauto. }
+    assert (Hfin : forall A' st st' res' (y' : asys),
+              step_ok (fst (shared y)) (z_srv z) (z_nxt z) t o st (rs t) sv' nx' p' A' st' res' ->
+              clock y' = S (clock y) -> done y' = done y -> shared y' = (A', now) ->
+              (forall u, u <> t -> threads y' u = threads y u) ->
+              tsim sv' t res' (TRun inv o p') (threads y' t) ->
+              zsim (mkZ sv' nx' (zupd (z_thr z) t (TRun inv o p')) (S (z_clock z)) (z_done z)) y').
+    { intros A' st st' res' y' [_ _ So3 So4 So5 So6 So7 So8] Hc' Hd' Hs' Hu' Ht'.
+      exists (fun u => if Nat.eqb u t then res' else rs u).
+      constructor; cbn [z_clock z_done z_srv z_nxt z_thr]; try rewrite Hs'; cbn [fst snd]; auto; try congruence.
+      - intros u. unfold zupd. destruct (Nat.eqb_spec u t) as [->|Hne]; [exact Ht'|].
+        rewrite (Hu' u Hne). apply Hfr. exact Hne.
+      - intros u n Hn. destruct (Nat.eqb_spec u t) as [->|Hne].
+        + split; [|apply So7; exact Hn]. destruct (So5 n Hn) as [Hin|[-> ->]]; [|lia].
+          destruct (Hrs t n Hin). lia.
+        + destruct (Hrs u n Hn) as [H1 H2]. split; [lia|]. intros Hin.
+          destruct (So8 n Hin) as [Hin'|Hin']; [exact (H2 Hin')|exact (Hdj u t n Hne Hn Hin')].
+      - intros u. destruct (Nat.eqb u t); [exact So6|apply Hnd].
+      - intros u u' n Hne Hn Hn'.
+        destruct (Nat.eqb_spec u t) as [->|Hu], (Nat.eqb_spec u' t) as [->|Hu']; try contradiction.
+        + destruct (So5 n Hn) as [Hin|[-> _]]; [exact (Hdj t u' n Hne Hin Hn')|].
+          destruct (Hrs u' _ Hn'). lia.
+        + destruct (So5 n Hn') as [Hin|[-> _]]; [exact (Hdj u t n Hne Hn Hin)|].
+          destruct (Hrs u _ Hn). lia.
+        + exact (Hdj u u' n Hne Hn Hn'). }
+    inversion Ht as [| |? ? ? Hok Hsh Hy|? ? ? r id Hok Hsh Hy]; subst.
+    + (* not linearised yet *)
+      destruct (Hstep None Hok Hsh) as [A' [st' [res' So]]]. pose proof So as [So1 So2 _ _ _ _ _ _].
+      inversion So1 as [|r A'' _ Hacc]; subst.
+      * exists XTau, (tick y). split; [apply x_tau|].
+        apply (Hfin _ _ _ _ _ So); cbn [tick clock done shared threads]; auto.
+        -- apply shared_eta. exact Htm.
+        -- rewrite <- Hy. apply ts_run0; assumption.
+      * exists (XE (EAtom t r)). eexists. split.
+        -- apply x_base. eapply s_atom; [symmetry; eassumption|]. rewrite (shared_eta y Htm). exact Hacc.
+        -- apply (Hfin _ _ _ _ _ So); cbn [clock done shared threads]; auto.
+           ++ intros u Hne. unfold upd. apply Nat.eqb_neq in Hne. rewrite Hne. reflexivity.
+           ++ unfold upd. rewrite Nat.eqb_refl. apply ts_run1; assumption.
+    + (* already linearised: only silent steps are left *)
+      destruct (Hstep (Some r) Hok Hsh) as [A' [st' [res' So]]]. pose proof So as [So1 So2 _ _ _ _ _ _].
+      inversion So1 as [|r' A'' Hn _]; subst; [|discriminate].
+      exists XTau, (tick y). split; [apply x_tau|].
+      apply (Hfin _ _ _ _ _ So); cbn [tick clock done shared threads]; auto.
+      * apply shared_eta. exact Htm.
+      * rewrite <- Hy. apply ts_run1; assumption.
+  - (* response *)
+    cbn [zstep] in Hs. pose proof (Hth t) as Ht. destruct (z_thr z t) as [| |inv o p] eqn:Et; try discriminate.
+    destruct p as [r| |]; try discriminate. injection Hs as <-.
+    inversion Ht as [| |? ? ? Hok Hsh Hy|? ? ? r0 id Hok Hsh Hy]; subst.
+    + destruct (tshape_ret _ _ _ _ _ _ Hsh) as [Hn _]. discriminate.
+    + destruct (tshape_ret _ _ _ _ _ _ Hsh) as [Hr0 Hres0]. injection Hr0 as ->.
+      exists (XE (ERet t)). eexists. split; [apply x_base; eapply s_ret; symmetry; eassumption|].
+      exists rs. constructor; cbn [z_clock z_done z_srv z_nxt z_thr clock done shared threads]; auto.
+      * rewrite Hck, Hdn. reflexivity.
+      * intros u. unfold zupd, upd. destruct (Nat.eqb_spec u t) as [->|Hne]; [|apply Hth].
+        apply ts_idle. exact Hres0.
+Qed.
+
+Lemma zrun_sim : forall tr z y0 xtr y z', xreach accF y0 xtr y -> zsim z y -> Forall label_ok tr ->
+  zrun rk_prog now clk z tr = Some z' ->
+  exists xtr' y', xreach accF y0 xtr' y' /\ zsim z' y'.
+Proof.
+  induction tr as [|l tr IH]; intros z y0 xtr y z' Hx Hz Hl Hr; cbn [zrun] in Hr.
+  - injection Hr as <-. eauto.
+  - inversion Hl as [|? ? Hl1 Hl2]; subst.
+    destruct (zstep rk_prog now clk z l) as [z1|] eqn:Es; [|discriminate].
+    destruct (zsim_step z y l z1 Hz Hl1 Es) as [e [y1 [Hxs Hz1]]].
+    eapply IH; [eapply xreach_snoc; eauto|exact Hz1|exact Hl2|exact Hr].
+Qed.
+
+Theorem redis_linearizable_fuel : forall tr z,
+  zrun rk_prog now clk z_init tr = Some z -> Forall label_ok tr -> zquiescent z ->
+  linearizable accF (finit, now) (z_done z).
+Proof.
+  intros tr z Hr Hl Hq.
+  destruct (zrun_sim tr z_init _ [] _ z (xreach_nil accF _) zsim_init Hl Hr) as [xtr [y [Hx [rs Hz]]]].
+  assert (Hqy : quiescent y).
+  { intros t. pose proof (zi_thr _ _ _ Hz t) as Ht. rewrite (Hq t) in Ht. inversion Ht. reflexivity. }
+  destruct (x_linearizable accF _ _ _ Hx Hqy) as [l [Hp [Hrt Hleg]]].
+  rewrite (zi_done _ _ _ Hz). exists l, (shared y). auto.
+Qed.
+
 End Proof.
